@@ -87,6 +87,7 @@ def runSt (chk : Bool) (toks : List String) : M Unit := do
         if n < 1 then throw (.panic .arity)
         stNaryQ chk true (← pOuts (mkQc chk) ins)
       | _, _ => stGeneric (mkQc chk) op args
+    | .w => stArith ⟨pW, sW⟩ (wCat "") (wCat "x") (wCat "m") (wCat "d") op args
     | .s => stGeneric cS op args
     | .c => stGeneric cC op args
   | _ => noimpl
